@@ -36,13 +36,16 @@ type Query {
   join(words: [String]): String
   span(r: Range): String
   chief: Keeper
+  blob(j: Json): String
 }
+scalar Json
 type Mutation {
   rename(old: String!, new: String!): Keeper
 }
 interface Animal {
   name: String!
   legs: Int
+  call(prefix: String, suffix: String): String
 }
 type Dog implements Animal {
   name: String!
@@ -50,12 +53,14 @@ type Dog implements Animal {
   barks: Boolean
   owner: Keeper
   code: Int
+  call(prefix: String, suffix: String): String
 }
 type Bird implements Animal {
   name: String!
   legs: Int
   wingspan: Float
   code: String
+  call(prefix: String, suffix: String): String
 }
 union Thing = Dog | Bird | Keeper | Cell
 type Keeper {
@@ -498,6 +503,22 @@ func span(r interface{}) string {
 	return "none"
 }
 
+// Blob is the reflection method behind Query.blob (argument of a custom scalar
+// type: whatever value the request wrote arrives as it is).
+func (q *Query) Blob(j interface{}) (string, error) {
+	if _, err := q.tr.enter("Query", "blob", nil, ""); err != nil {
+		return "", err
+	}
+	return CanonLite(j), nil
+}
+
+// Call is the reflection method behind Dog.call (a field of the interface Animal
+// with two arguments).
+func (d *Dog) Call(prefix, suffix string) string { return prefix + d.Name + suffix }
+
+// Call is the reflection method behind Bird.call.
+func (b *Bird) Call(prefix, suffix string) string { return prefix + b.Name + suffix }
+
 // Pick is the reflection method behind Query.pick.
 func (q *Query) Pick(i int64) (interface{}, error) {
 	if _, err := q.tr.enter("Query", "pick", map[string]interface{}{"i": i}, ""); err != nil {
@@ -720,6 +741,8 @@ func zooField(q *Query, obj interface{}, name string, args map[string]interface{
 			return pick(o, toInt64(args["i"])), nil
 		case "span":
 			return span(args["r"]), nil
+		case "blob":
+			return CanonLite(args["j"]), nil
 		case "join":
 			l, _ := args["words"].([]interface{})
 			out := ""
@@ -806,6 +829,10 @@ func zooField(q *Query, obj interface{}, name string, args map[string]interface{
 			return o.Owner, nil
 		case "code":
 			return o.Code, nil
+		case "call":
+			p, _ := args["prefix"].(string)
+			sf, _ := args["suffix"].(string)
+			return o.Call(p, sf), nil
 		}
 	case *Bird:
 		switch name {
@@ -817,6 +844,10 @@ func zooField(q *Query, obj interface{}, name string, args map[string]interface{
 			return o.Wingspan, nil
 		case "code":
 			return o.Code, nil
+		case "call":
+			p, _ := args["prefix"].(string)
+			sf, _ := args["suffix"].(string)
+			return o.Call(p, sf), nil
 		}
 	case *GridCell:
 		switch name {
